@@ -5,6 +5,20 @@
 // scratch directory — and reports what the real getters answer for every certificate.
 #![allow(dead_code, unused_imports)]
 use super::*;
+// Named explicitly so that this probe does not depend on which names the parent file happens to import
+// (a clean-up of an unused import there must not break the hooked build).
+#[allow(unused_imports)]
+use std::collections::BTreeSet;
+#[allow(unused_imports)]
+use std::time::Duration;
+#[allow(unused_imports)]
+use acme_common::error::Error;
+#[allow(unused_imports)]
+use std::collections::HashMap;
+#[allow(unused_imports)]
+use std::path::PathBuf;
+#[allow(unused_imports)]
+use crate::hooks;
 use serde_json::{json, Value};
 
 fn sorted_env(env: &HashMap<String, String>) -> Value {
